@@ -75,3 +75,60 @@ func TestGovcReplay(t *testing.T) {
 		},
 	}}, harnesses...)
 }
+
+func init() {
+	harnesses = append([]*harness{{
+		name:      "DSL route replay (a route whose only DSL expression does not compile is built all the same and matches every request)",
+		modelFree: true,
+		match: func(o *Obligation) bool {
+			return strings.HasSuffix(o.Func, "router.NewRouteBase") && strings.Contains(o.Name, "everyConfiguredExpressionIsEvaluated")
+		},
+		run: func(eng *Engine, o *Obligation) *ReplayOutcome {
+			src := `package router
+
+import (
+	"context"
+	"fmt"
+	"testing"
+
+	v2 "mosn.io/mosn/pkg/config/v2"
+	"mosn.io/mosn/pkg/protocol"
+	"mosn.io/pkg/variable"
+)
+
+// The failed obligation says: NewRouteBase may hand out a DSL rule that evaluates fewer expressions than the route
+// configures. Replay: a route whose only expression does not compile, then a route with one valid and one invalid
+// expression and a request the valid one accepts.
+func TestGovcReplay(t *testing.T) {
+	vh := &VirtualHostImpl{virtualHostName: "test"}
+	mk := func(exprs ...string) *v2.Router {
+		r := &v2.Router{}
+		for _, e := range exprs {
+			r.Match.DslExpressions = append(r.Match.DslExpressions, v2.DslExpressionMatcher{Expression: e})
+		}
+		r.Route.ClusterName = "test"
+		return r
+	}
+	rule, err := NewRouteBase(vh, mk("this is ( not valid"))
+	if err != nil || rule == nil {
+		fmt.Println("REPLAY-NOT-REPRODUCED a route whose expression does not compile is refused:", err)
+		return
+	}
+	ctx := variable.NewVariableContext(context.Background())
+	if rule.Match(ctx, protocol.CommonHeader{"any": "request"}) == nil {
+		fmt.Println("REPLAY-NOT-REPRODUCED the rule was built but matches nothing")
+		return
+	}
+	d, _ := rule.(*DslExpressionRouteRuleImpl)
+	n := -1
+	if d != nil {
+		n = len(d.DslExpressions)
+	}
+	fmt.Printf("REPLAY-CONFIRMED route with dsl_expressions [\"this is ( not valid\"]: NewRouteBase returned a rule with %d of 1 configured expressions and no error; it matches an arbitrary request (and shadows every later route of its virtual host)\n", n)
+}
+`
+			out, _ := runOverlayTest("pkg/router", src, "^TestGovcReplay$")
+			return outcomeFromOutput(src, out)
+		},
+	}}, harnesses...)
+}
